@@ -16,6 +16,11 @@ Tie (8 virtual CPU devices):
        _unstack_m/_stack_m, clip mask, inverse Laplacian factors, padded bases, padded transforms;
  (iii) sentinel differential (the property itself): every op sharded vs unsharded on (z,x,y) meshes.
 
+ (v)   (rev. D) sharded_einsum itself on two 2-D operands over a one-axis mesh against the model's plan + shard_map blocks +
+       dynamic_slice chunks + collective (driver op `semat`, Lean: shardedEinsum_matrix_partial); the padded transforms on
+       inputs with garbage on the padding, model vs code (Lean: fast*_padded_any).  No part of the tie is conditional on the
+       presence of a Lean file or a driver operation: a missing file or a `bad-op` answer is a failure.
+
  (iv)  (rev. B) the collectives on 2-D blocks of unsharded matrices (model: rowChunk / colChunk / splitEvery, Lean:
        allgatherMatmul_unsharded / matmulReducescatter_unsharded); the string / index logic of sharded_einsum
        (props/c07_einsum.py, model Dino/ShardEinsum.lean) on every pattern the transforms use and on a malformed
@@ -39,10 +44,6 @@ import common
 from common import fvec, fmat, fbits, unfvec, unfmat, unfbits, ivec, univec
 import dinoutil
 from props import c07_einsum
-
-# the model files added by the rev.-B repair (block decomposition, sharded_einsum string logic, checked derivative):
-# the probes that need the new driver operations are skipped until those files are merged into lean/
-HAVE_NEW = os.path.exists(os.path.join(common.LEAN, 'Dino', 'ShardEinsum.lean'))
 
 TOL = 1e-10
 NDEV = 8
@@ -199,7 +200,7 @@ def real_trace(env, kind, n, reverse_arg_order):
 
 
 def model_trace(line_out):
-  if line_out in ('value-error', 'bad-op'):
+  if line_out == 'value-error':
     return None
   res = []
   for dev in line_out.split(';'):
@@ -217,8 +218,12 @@ def part_trace(ctx, env):
   outs = dict(zip(lines, ctx.model(lines)))
   for kind in ('ag', 'rs'):
     for n in (1, 2, 3, 4, 5, 6, 8):
-      mt = model_trace(outs[f'shard {kind} {n}'])
       ctx.dist[f'trace:{kind}:n={n}'] += 1
+      if outs[f'shard {kind} {n}'] == 'bad-op':
+        # the driver operation must exist: its absence is a break of the correspondence, never a skip
+        ctx.corr_mismatch(f'trace[{kind}]', dict(n=n), 'runs / raises', 'bad-op', 'model rejected the operation')
+        continue
+      mt = model_trace(outs[f'shard {kind} {n}'])
       if n in (3, 5):
         # odd axis sizes: the real function raises ValueError, the model rejects
         raised = False
@@ -298,32 +303,61 @@ def part_corr(ctx, env):
                      'reduce-scatter matmul != lhs @ rhs', inp)
 
   # --- the collectives on 2-D operands (chunk sizes > 1): blocks of unsharded matrices A (n r x n k), B (n k x w)
-  if HAVE_NEW:
-    for n in (1, 2, 4, 6, 8):
-      mesh = env.mesh1(n)
-      for rep in range(ctx.n(1, 3)):
-        k, r, w = (int(v) for v in rng.integers(1, 4, 3))
+  for n in (1, 2, 4, 6, 8):
+    mesh = env.mesh1(n)
+    for rep in range(ctx.n(1, 3)):
+      k, r, w = (int(v) for v in rng.integers(1, 4, 3))
+      rev = bool(rng.integers(0, 2))
+      A = rng.standard_normal((n * r, n * k))
+      B = rng.standard_normal((n * k, w))
+      inp = dict(n=n, k=k, r=r, w=w, A=A.tolist(), B=B.tolist(), reverse_arg_order=rev)
+      ctx.case(('agmat', n, k, r, w, A.tobytes(), B.tobytes(), rev), nontrivial=n > 1)
+      ctx.dist[f'matrix-collectives:n={n}'] += 1
+      with ctx.impl('collective-exception', inp):
+        f = functools.partial(jnu._allgather_matmul_twoway, 'ik,kj->ij', split_axis=1, axis_name='x',
+                              reverse_arg_order=rev, precision='float32')
+        g = env.shard_map(f, mesh=mesh, in_specs=(P('x', None), P('x', None)), out_specs=P('x', None), check_rep=False)
+        out = np.asarray(jax.jit(g)(jnp.asarray(A), jnp.asarray(B)))
+        add(f'shard F agmat {n} {k} {r} {w} {fmat(A)} {fmat(B)}', '_allgather_matmul_twoway [matrix blocks]', inp, out, 'devmats')
+        ctx.expect(dinoutil.relerr(out, A @ B) < TOL, f'allgather-matmul:n={n}',
+                   'all-gather matmul on matrix blocks != rows of A @ B', inp)
+        f = functools.partial(jnu._matmul_reducescatter_twoway, 'ik,kj->ij', scatter_axis=0, axis_name='x',
+                              reverse_arg_order=rev, precision='float32')
+        g = env.shard_map(f, mesh=mesh, in_specs=(P(None, 'x'), P('x', None)), out_specs=P('x', None), check_rep=False)
+        out = np.asarray(jax.jit(g)(jnp.asarray(A), jnp.asarray(B)))
+        add(f'shard F rsmat {n} {k} {r} {w} {fmat(A)} {fmat(B)}', '_matmul_reducescatter_twoway [matrix blocks]', inp, out, 'devmats')
+        ctx.expect(dinoutil.relerr(out, A @ B) < TOL, f'reducescatter-matmul:n={n}',
+                   'reduce-scatter matmul on matrix blocks != rows of A @ B', inp)
+
+  # --- sharded_einsum itself on two 2-D operands over a one-axis mesh (Lean: shardedEinsum_matrix_partial; model
+  #     Dino.ShardEinsum.shardedEinsumMat = plan, then the shard_map blocks and dynamic_slice chunks it induces, then the
+  #     collective it selects): every strategy (explicit gather / scatter, default by data volume), both argument orders
+  import time as _time
+  t_semat = _time.time()
+  for n in (1, 2, 4, 6, 8):
+    mesh = env.mesh1(n)
+    for rep in range(ctx.n(1, 3)):
+      k, r = (int(v) for v in rng.integers(1, 4, 2))
+      w = int(rng.choice([1, 2, 3, n * k * 2 + 1]))     # a wide rhs flips the default strategy to scatter
+      sub = ['ik,kj->ij', 'ab,bc->ac', 'oc,cz->oz', 'mX,Xn->mn'][int(rng.integers(0, 4))]
+      A = rng.standard_normal((n * r, n * k))
+      B = rng.standard_normal((n * k, w))
+      for gather in (None, True, False):
         rev = bool(rng.integers(0, 2))
-        A = rng.standard_normal((n * r, n * k))
-        B = rng.standard_normal((n * k, w))
-        inp = dict(n=n, k=k, r=r, w=w, A=A.tolist(), B=B.tolist(), reverse_arg_order=rev)
-        ctx.case(('agmat', n, k, r, w, A.tobytes(), B.tobytes(), rev), nontrivial=n > 1)
-        ctx.dist[f'matrix-collectives:n={n}'] += 1
-        with ctx.impl('collective-exception', inp):
-          f = functools.partial(jnu._allgather_matmul_twoway, 'ik,kj->ij', split_axis=1, axis_name='x',
-                                reverse_arg_order=rev, precision='float32')
-          g = env.shard_map(f, mesh=mesh, in_specs=(P('x', None), P('x', None)), out_specs=P('x', None), check_rep=False)
-          out = np.asarray(jax.jit(g)(jnp.asarray(A), jnp.asarray(B)))
-          add(f'shard F agmat {n} {k} {r} {w} {fmat(A)} {fmat(B)}', '_allgather_matmul_twoway [matrix blocks]', inp, out, 'devmats')
-          ctx.expect(dinoutil.relerr(out, A @ B) < TOL, f'allgather-matmul:n={n}',
-                     'all-gather matmul on matrix blocks != rows of A @ B', inp)
-          f = functools.partial(jnu._matmul_reducescatter_twoway, 'ik,kj->ij', scatter_axis=0, axis_name='x',
-                                reverse_arg_order=rev, precision='float32')
-          g = env.shard_map(f, mesh=mesh, in_specs=(P(None, 'x'), P('x', None)), out_specs=P('x', None), check_rep=False)
-          out = np.asarray(jax.jit(g)(jnp.asarray(A), jnp.asarray(B)))
-          add(f'shard F rsmat {n} {k} {r} {w} {fmat(A)} {fmat(B)}', '_matmul_reducescatter_twoway [matrix blocks]', inp, out, 'devmats')
-          ctx.expect(dinoutil.relerr(out, A @ B) < TOL, f'reducescatter-matmul:n={n}',
-                     'reduce-scatter matmul on matrix blocks != rows of A @ B', inp)
+        inp = dict(n=n, k=k, r=r, w=w, subscripts=sub, gather_inputs=gather, reverse_arg_order=rev, A=A.tolist(), B=B.tolist())
+        ctx.case(('semat', n, k, r, w, sub, gather, rev, A.tobytes(), B.tobytes()), nontrivial=n > 1)
+        ctx.dist[f'sharded-einsum-matrix:n={n} gather_inputs={gather}'] += 1
+        with ctx.impl('einsum-exception:matrix', inp):
+          out = np.asarray(jnu.sharded_einsum(sub, A, jnp.asarray(B), gather_inputs=gather, reverse_arg_order=rev,
+                                              precision='float32', mesh=mesh, rhs_spec=P('x', None), out_spec=P('x', None)))
+          gs = 'n' if gather is None else str(int(gather))
+          add(f'shard F semat {c07_einsum.chars(sub)} {n} {gs} x,- x,- {fmat(A)} {fmat(B)}',
+              'sharded_einsum [2-D operands, one mesh axis]', inp, out, 'devmats')
+          ctx.expect(out.shape == (n * r, w) and dinoutil.relerr(out, A @ B) < TOL, 'diff:sharded_einsum',
+                     f'sharded_einsum {sub} (gather_inputs={gather}, reverse={rev}) on {n} devices != A @ B', inp)
+
+  if os.environ.get('C07_TIMING'):
+    print(f'TIMING corr/sharded-einsum-matrix={_time.time() - t_semat:.0f}s', flush=True)
 
   # --- ppermute tables
   for n in (1, 2, 4, 6, 8):
@@ -380,19 +414,18 @@ def part_corr(ctx, env):
            (5, 0), (0, 0), (12, 32), (64, 128)]
   for _ in range(ctx.n(60, 600)):
     cases.append((int(rng.integers(0, 400)), int(rng.choice([1, 2, 3, 4, 6, 8, 16, 24, 32, 64, 128, 7, 0]))))
-  if HAVE_NEW:
-    # the model is the exact integer ceiling; Python divides in binary64: equal for x < 2^53 (Lean:
-    # roundToMultiple_float_agrees), so the correspondence is run up to that bound
-    cases += [(2 ** 53 - 1, 1), (2 ** 53 - 1, 2), (2 ** 53 - 2, 2 ** 52 - 1), (2 ** 52 + 1, 2 ** 26), (2 ** 53 - 1, 2 ** 53 - 1),
-              (2 ** 53 - 1, 3), (10 ** 15 + 1, 10 ** 15), (10 ** 15 + 1, 7)]
-    for _ in range(ctx.n(40, 400)):
-      e = int(rng.integers(20, 53))
-      xv = int(rng.integers(2 ** (e - 1), 2 ** e))
-      mv = int(rng.choice([1, 2, 3, 7, 8, 96, 2 ** 20 + 1, max(1, xv // 3), max(1, xv - 1), xv, xv + 1]))
-      cases.append((xv, mv))
-    # beyond the bound the code itself is no longer the least multiple >= x (domain note, not compared)
-    big = sh._round_to_multiple(2 ** 53 + 1, 1)
-    ctx.dist['rtm:beyond-2^53 float quotient loses the last bit'] += int(big != 2 ** 53 + 1)
+  # the model is the exact integer ceiling; Python divides in binary64: equal for x < 2^53 (Lean:
+  # roundToMultiple_float_agrees), so the correspondence is run up to that bound
+  cases += [(2 ** 53 - 1, 1), (2 ** 53 - 1, 2), (2 ** 53 - 2, 2 ** 52 - 1), (2 ** 52 + 1, 2 ** 26), (2 ** 53 - 1, 2 ** 53 - 1),
+            (2 ** 53 - 1, 3), (10 ** 15 + 1, 10 ** 15), (10 ** 15 + 1, 7)]
+  for _ in range(ctx.n(40, 400)):
+    e = int(rng.integers(20, 53))
+    xv = int(rng.integers(2 ** (e - 1), 2 ** e))
+    mv = int(rng.choice([1, 2, 3, 7, 8, 96, 2 ** 20 + 1, max(1, xv // 3), max(1, xv - 1), xv, xv + 1]))
+    cases.append((xv, mv))
+  # beyond the bound the code itself is no longer the least multiple >= x (domain note, not compared)
+  big = sh._round_to_multiple(2 ** 53 + 1, 1)
+  ctx.dist['rtm:beyond-2^53 float quotient loses the last bit'] += int(big != 2 ** 53 + 1)
   for (xv, mv) in cases:
     try:
       impl = str(sh._round_to_multiple(xv, mv))
@@ -489,21 +522,20 @@ def part_corr(ctx, env):
 
   # --- an odd number of modal rows: fourier.real_basis_derivative_with_zero_imag raises ValueError, and so does the
   #     model of the per-shard call (padded_shapes never produces such shards: T7.7)
-  if HAVE_NEW:
-    for (rows, srows) in ((3, 3), (6, 3), (5, 5), (4, 2), (10, 5)):
-      x = rng.standard_normal((rows, 2))
-      res = []
-      for a in range(rows // srows):
-        try:
-          np.asarray(env.fourier.real_basis_derivative_with_zero_imag(jnp.asarray(x[a * srows:(a + 1) * srows]), -2, srows // 2 * a))
-          res.append('ok')
-        except ValueError:
-          res.append('value-error')
-      impl = 'value-error' if 'value-error' in res else 'ok'
-      ctx.case(('dlon-odd', rows, srows), nontrivial=True)
-      ctx.dist[f'rows:odd-shard-rows {impl}'] += 1
-      lines.append(f'shard F dlon {srows} 2 {fmat(x)}')
-      checks.append(('real_basis_derivative_with_zero_imag [odd rows rejected]', dict(rows=rows, shard_rows=srows), impl, 'errtag'))
+  for (rows, srows) in ((3, 3), (6, 3), (5, 5), (4, 2), (10, 5)):
+    x = rng.standard_normal((rows, 2))
+    res = []
+    for a in range(rows // srows):
+      try:
+        np.asarray(env.fourier.real_basis_derivative_with_zero_imag(jnp.asarray(x[a * srows:(a + 1) * srows]), -2, srows // 2 * a))
+        res.append('ok')
+      except ValueError:
+        res.append('value-error')
+    impl = 'value-error' if 'value-error' in res else 'ok'
+    ctx.case(('dlon-odd', rows, srows), nontrivial=True)
+    ctx.dist[f'rows:odd-shard-rows {impl}'] += 1
+    lines.append(f'shard F dlon {srows} 2 {fmat(x)}')
+    checks.append(('real_basis_derivative_with_zero_imag [odd rows rejected]', dict(rows=rows, shard_rows=srows), impl, 'errtag'))
 
   # --- zero-padded bases and the padded transforms (small grids: everything travels on the wire)
   basis_cases = [(3, None, 2, False), (3, (1, 2, 1), 1, False), (3, (1, 1, 2), 2, True), (4, (1, 2, 2), 1, True)]
@@ -540,6 +572,25 @@ def part_corr(ctx, env):
           'inverse_transform on the padded layout', inp, syn, 'mat')
       add(f'shard F fanal {int(stacked)} {dims} {fmat(b0.f)} {ptab} {fvec(w0)} {fmat(zn)}',
           'transform on the padded layout', inp, ana, 'mat')
+      # ARBITRARY content on the padding of the input (Lean: fastSynth_padded_any / fastAnalysis_padded_any and the stacked
+      # forms): the model and the code are run on the same garbage, and both must return the result of the zero-padded input
+      gm = rng.standard_normal(xm.shape) * 1e3
+      gm[:R, :L] = 0
+      gn = rng.standard_normal(zn.shape) * 1e3
+      gn[:N, :J] = 0
+      if gm.any() or gn.any():
+        ctx.dist['basis:garbage-on-the-padding'] += 1
+      syn_g = np.asarray(g.spherical_harmonics.inverse_transform(jnp.asarray(xm + gm)))
+      ana_g = np.asarray(g.spherical_harmonics.transform(jnp.asarray(zn + gn)))
+      add(f'shard F fsynth {int(stacked)} {dims} {fmat(b0.f)} {ptab} {fvec(w0)} {fmat(xm + gm)}',
+          'inverse_transform on the padded layout [garbage on the padding]', inp, syn_g, 'mat')
+      add(f'shard F fanal {int(stacked)} {dims} {fmat(b0.f)} {ptab} {fvec(w0)} {fmat(zn + gn)}',
+          'transform on the padded layout [garbage on the padding]', inp, ana_g, 'mat')
+      ctx.expect(dinoutil.relerr(syn_g, syn) <= TOL and pad_mass(syn_g, (N, J)) <= TOL * max(1.0, float(np.abs(syn).max())),
+                 'diff:to_nodal', 'inverse_transform depends on the content of the modal padding (or writes into the nodal '
+                 'padding)', inp)
+      ctx.expect(dinoutil.relerr(ana_g, ana) <= TOL and pad_mass(ana_g, (R, L)) <= TOL * max(1.0, float(np.abs(ana).max())),
+                 'diff:to_modal', 'transform depends on the content of the nodal padding (or writes into the modal padding)', inp)
 
   outs = ctx.model(lines)
   for (op, inp, impl, kind), o in zip(checks, outs):
@@ -978,10 +1029,11 @@ def part_time_step(ctx, env, meshes):
 
 def run(ctx: common.Ctx):
   env = Env(ctx)
+  # every file is required: a missing one is a failure of the check (FileNotFoundError in the source audit), not a skip
   extra = ['DinoProofs/Lemmas/Shard.lean', 'DinoProofs/Lemmas/ShardPad.lean', 'DinoProofs/Lemmas/ShardBasis.lean',
-           'Dino/Shard.lean', 'Dino/ShardDrv.lean']
-  if HAVE_NEW:
-    extra += ['DinoProofs/Lemmas/ShardBlock.lean', 'DinoProofs/Lemmas/ShardEinsum.lean', 'Dino/ShardEinsum.lean']
+           'DinoProofs/Lemmas/ShardBlock.lean', 'DinoProofs/Lemmas/ShardEinsum.lean', 'DinoProofs/Lemmas/ShardGarbage.lean',
+           'DinoProofs/Lemmas/ShardArrays.lean', 'DinoProofs/Lemmas/ShardEinsumMat.lean',
+           'Dino/Shard.lean', 'Dino/ShardDrv.lean', 'Dino/ShardEinsum.lean', 'Dino/ShardEinsumMat.lean']
   ctx.lean('DinoProofs.Properties.C07', 'C07.txt', extra_files=extra)
   rng = ctx.rng
   meshes = all_meshes()
